@@ -117,6 +117,14 @@ func (d *dev) withHelpers(only map[*ssa.Function]bool) map[*ssa.Function]bool {
 	for f := range pureHelpers(d.p) {
 		only[f] = true
 	}
+	// local closures of the package (a `send := func(...)` inside a handler) are part of the function that calls them
+	for _, f := range d.p.Funcs {
+		if f.Parent() != nil && f.Synthetic == "" && len(f.Blocks) > 0 {
+			if top := topFunc(f); top.Pkg != nil && top.Pkg.Pkg.Path() == pkgDevice {
+				only[f] = true
+			}
+		}
+	}
 	return only
 }
 
@@ -975,4 +983,45 @@ func pureHelpers(p *Program) map[*ssa.Function]bool {
 	}
 	p.pure = out
 	return out
+}
+
+// listLiteral: the constant elements of a package-level array/slice literal without keys (position = index).
+func (p *Program) listLiteral(pkgPath, name string) ([]constant.Value, bool) {
+	pk := p.Pkgs[pkgPath]
+	if pk == nil {
+		return nil, false
+	}
+	for _, f := range pk.Syntax {
+		for _, d := range f.Decls {
+			gd, isGen := d.(*ast.GenDecl)
+			if !isGen || gd.Tok != token.VAR {
+				continue
+			}
+			for _, s := range gd.Specs {
+				vs := s.(*ast.ValueSpec)
+				for i, n := range vs.Names {
+					if n.Name != name || i >= len(vs.Values) {
+						continue
+					}
+					cl, isCl := vs.Values[i].(*ast.CompositeLit)
+					if !isCl {
+						return nil, false
+					}
+					var out []constant.Value
+					for _, e := range cl.Elts {
+						if _, isKV := e.(*ast.KeyValueExpr); isKV {
+							return nil, false
+						}
+						tv := pk.TypesInfo.Types[e]
+						if tv.Value == nil {
+							return nil, false
+						}
+						out = append(out, tv.Value)
+					}
+					return out, true
+				}
+			}
+		}
+	}
+	return nil, false
 }
